@@ -16,12 +16,33 @@ for d in sorted(glob.glob(os.path.join(ROOT, 'seeded', '*'))):
     if len(summ) > 170: summ = summ[:167] + '...'
     if len(need) > 150: need = need[:147] + '...'
     checks = v.get('checks', {})
-    res = ', '.join('%s: %s (%ss)' % (c, {0: 'silent', 1: 'CAUGHT', 2: 'inconclusive'}.get(x['exit'], x['exit']), x['seconds']) for c, x in checks.items())
+    res = ', '.join('%s: %s (%ss)' % (c, {0: 'silent', 1: 'CAUGHT', 2: 'inconclusive'}.get(x['exit'], x['exit']), x.get('seconds', '-')) for c, x in checks.items())
+    rp = os.path.join(d, 'recheck.json')
+    if os.path.exists(rp):
+        rc = json.load(open(rp))
+        own = checks.get(name.split('-')[0], {}).get('exit')
+        if own == 0 and rc.get('status') == 'caught':
+            res += '; after strengthening (harness %s): CAUGHT (%ss)' % (rc.get('harness_rev'), rc.get('seconds'))
+        elif rc.get('status') not in ('caught',):
+            res += '; latest re-run: %s' % rc.get('status')
+    if m.get('note_after_fix'):
+        res += '; ' + m['note_after_fix'].replace('|', '/')
     rows.append('| %s | %s | %s | %s |' % (name, summ, need, res))
-caught = sum(1 for d in glob.glob(os.path.join(ROOT, 'seeded', '*', 'meta.json')) if json.load(open(d)).get('caught_by') and os.path.basename(os.path.dirname(d)).split('-')[0] in json.load(open(d)).get('caught_by'))
+def _now_caught(mp):
+    m = json.load(open(mp)); d = os.path.dirname(mp); pid = os.path.basename(d).split('-')[0]
+    rp = os.path.join(d, 'recheck.json')
+    if os.path.exists(rp):
+        return json.load(open(rp)).get('status') == 'caught'
+    return bool(m.get('caught_by')) and pid in m.get('caught_by')
+def _first(mp):
+    m = json.load(open(mp)); pid = os.path.basename(os.path.dirname(mp)).split('-')[0]
+    return m.get('verified_by_me', {}).get('checks', {}).get(pid, {}).get('exit') == 1
+metas = glob.glob(os.path.join(ROOT, 'seeded', '*', 'meta.json'))
+caught = sum(1 for mp in metas if _now_caught(mp))
+first = sum(1 for mp in metas if _first(mp))
 total = len(rows)
 matrix = '| seeded change | what was changed | needs, to manifest | quick checks run against it |\n|---|---|---|---|\n' + '\n'.join(rows)
-matrix += '\n\n%d of %d confirmed seeded changes are caught by the quick tier of the check of the property they were written against.' % (caught, total)
+matrix += '\n\n%d of %d stored seeded changes are caught by the current harness (quick tier of the check of the property they were written against; latest `tools/reeval_seeded.py` run - the exception is explained in its row). First-contact rates per round - what the harness caught before it was strengthened in response - are in the notes below; the per-row results of rounds 1-4 were re-recorded after strengthening.' % (caught, total)
 extra = os.path.join(ROOT, 'tools', 'seeded_notes.md')
 if os.path.exists(extra):
     matrix += '\n\n' + open(extra).read().strip()
